@@ -70,11 +70,22 @@ Proof. destruct c; cbn; tauto. Qed.
 Lemma adopt_call_ok cache oc c : adopt_call cache c -> call_in cache oc c.
 Proof. destruct c; cbn; tauto. Qed.
 
+(* calls of revision listing / resolution: no delete, no adoption *)
+Definition resolve_call (c : call) : Prop :=
+  match c with
+  | CListRevs _ | CGetRev _ | CUpdateRev _ _ _ | CCreateRev _ _ _ => True
+  | _ => False
+  end.
+Lemma resolve_is_rev_or_read c : resolve_call c -> is_rev_or_read c.
+Proof. destruct c; cbn; tauto. Qed.
+
 Section Lift.
 Variable hashes : list ((Z * Z) * string).
 
-Lemma emits_list_revisions s : emits is_rev_or_read (list_revisions s).
+Lemma emits_list_revisions_r s : emits resolve_call (list_revisions s).
 Proof. unfold list_revisions, api_list_revs. msimp; exact I. Qed.
+Lemma emits_list_revisions s : emits is_rev_or_read (list_revisions s).
+Proof. eapply emits_weaken; [apply resolve_is_rev_or_read | apply emits_list_revisions_r]. Qed.
 
 Lemma emits_sync_all : forall l, emits is_rev_or_read (sync_all l).
 Proof.
@@ -103,7 +114,7 @@ Proof.
 Qed.
 
 Lemma emits_update_controller_revision : forall fuel clone n last,
-  emits is_rev_or_read (update_controller_revision fuel clone n last).
+  emits resolve_call (update_controller_revision fuel clone n last).
 Proof.
   induction fuel as [|f IH]; intros clone n last; cbn [update_controller_revision]; [apply mspec_fail|].
   destruct (r_revision clone =? n); [apply emits_ret|].
@@ -111,14 +122,14 @@ Proof.
 Qed.
 
 Lemma emits_create_controller_revision : forall fuel s r coll,
-  emits is_rev_or_read (create_controller_revision hashes fuel s r coll).
+  emits resolve_call (create_controller_revision hashes fuel s r coll).
 Proof.
   induction fuel as [|f IH]; intros s r coll; cbn [create_controller_revision]; [apply mspec_fuel|].
   destruct (hash_of hashes (r_tmpl r) coll); [|apply mspec_fuel].
   unfold api_create_rev, api_get_rev. msimp; try exact I; try apply IH.
 Qed.
 
-Lemma emits_get_set_revisions s revs : emits is_rev_or_read (get_set_revisions hashes s revs).
+Lemma emits_get_set_revisions_r s revs : emits resolve_call (get_set_revisions hashes s revs).
 Proof.
   unfold get_set_revisions. destruct (hash_of hashes (s_tmpl s) _); [|apply mspec_fuel].
   apply emits_bind.
@@ -129,6 +140,9 @@ Proof.
     + apply emits_create_controller_revision.
   - intros [upd coll]. apply emits_ret.
 Qed.
+
+Lemma emits_get_set_revisions s revs : emits is_rev_or_read (get_set_revisions hashes s revs).
+Proof. eapply emits_weaken; [apply resolve_is_rev_or_read | apply emits_get_set_revisions_r]. Qed.
 
 Lemma emits_truncate s pods revs cur upd : emits is_rev_or_read (truncate_history s pods revs cur upd).
 Proof.
